@@ -131,13 +131,17 @@ Qed.
 Lemma distribute_internal_counts : forall cfg thr g ls di cache w di' cache',
   distribute_internal cfg thr g ls di cache = Ok (w, di', cache') ->
   sum_locks ls < 2 ^ max_int_bits -> locks_pos ls ->
-  (ls = [] -> w = None) /\ (ls <> [] -> exists g', w = Some g').
+  (g_pool g = 0 -> ls = [] -> w = None) /\ (g_pool g <> 0 \/ ls <> [] -> exists g', w = Some g').
 Proof.
   intros cfg thr g ls di cache w di' cache' H Hb Hp. unfold distribute_internal in H.
   destruct (coins_sub (g_coins g) (g_dist g)) as [remain|]; [|discriminate].
   destruct (remain_epochs g =? 0); [discriminate|].
+  destruct (g_pool g =? 0) eqn:Pl; cbn [negb] in H.
+  2:{ apply Z.eqb_neq in Pl. destruct (nolock_coins (remain_epochs g) remain []); [|discriminate]. inversion H; subst.
+      split; [intros; congruence|eauto]. }
+  apply Z.eqb_eq in Pl.
   destruct ls as [|l0 lr]; cbn [is_empty] in H.
-  - inversion H; subst. split; auto. congruence.
+  - inversion H; subst. split; auto. intros [X|X]; congruence.
   - split; [discriminate|intros _].
     destruct (is_empty remain); [inversion H; eauto|].
     destruct (is_small_gauge cfg remain); [inversion H; eauto|].
@@ -159,8 +163,8 @@ Lemma finish_step : forall cfg thr s s' g, Inv s -> after_epoch_end cfg thr s = 
   takes_part s g -> g_perp g = false -> sum_locks (elig (s_locks s) g) < 2 ^ max_int_bits ->
   exists g', get_gauge (s_gauges s') (g_id g) = Some g' /\ g_n g' = g_n g /\ g_perp g' = false /\
     g_filled g < g_n g /\
-    (elig (s_locks s) g <> [] -> g_filled g' = g_filled g + 1) /\
-    (elig (s_locks s) g = [] -> g' = g) /\
+    (g_pool g <> 0 \/ elig (s_locks s) g <> [] -> g_filled g' = g_filled g + 1) /\
+    (g_pool g = 0 -> elig (s_locks s) g = [] -> g' = g) /\
     (In (g_id g) (refs_all (s_fin s')) <-> g_n g <= g_filled g + 1) /\
     (In (g_id g) (refs_all (s_act s')) <-> g_filled g + 1 < g_n g).
 Proof.
@@ -184,8 +188,7 @@ Proof.
     - apply Z.leb_gt in Fin. destruct (F2 eq_refl). lia. }
   destruct w as [g'|].
   - destruct OK as (_ & _ & _ & E3 & E4 & _ & _ & _ & E8). rewrite E3, E4. repeat split; auto; try apply Sets.
-    intros E. destruct (Cs ltac:(intros X; rewrite X in Cn; specialize (Cn eq_refl); discriminate)) as (g2 & _).
-    specialize (Cn E). discriminate.
+    intros P0 E. specialize (Cn P0 E). discriminate.
   - repeat split; auto; try apply Sets. intros Ne. destruct (Cs Ne) as (g2 & X). discriminate.
 Qed.
 
@@ -194,15 +197,17 @@ Lemma finish_characterisation : forall cfg thr s s' g, Inv s -> after_epoch_end 
   takes_part s g -> g_perp g = false -> sum_locks (elig (s_locks s) g) < 2 ^ max_int_bits ->
   exists g', get_gauge (s_gauges s') (g_id g) = Some g' /\
     ((In (g_id g) (refs_all (s_fin s')) /\ g_filled g' < g_n g')
-     <-> (elig (s_locks s) g = [] /\ g_filled g = g_n g - 1)).
+     <-> (g_pool g = 0 /\ elig (s_locks s) g = [] /\ g_filled g = g_n g - 1)).
 Proof.
   intros cfg thr s s' g I H Tp P Hb.
   destruct (finish_step _ _ _ _ g I H Tp P Hb) as (g' & G & En & Ep & Hlt & Q1 & Q0 & Sf & Sa).
   exists g'. split; auto. rewrite En. split.
-  - intros [Hf Hl]. apply Sf in Hf. destruct (elig (s_locks s) g) eqn:E.
-    + split; auto. lia.
-    + rewrite Q1 in Hl by discriminate. lia.
-  - intros [E Ef]. rewrite (Q0 E). split; [apply Sf; lia|lia].
+  - intros [Hf Hl]. apply Sf in Hf. destruct (Z.eq_dec (g_pool g) 0) as [Pz|Pn].
+    + destruct (elig (s_locks s) g) eqn:E.
+      * repeat split; auto. lia.
+      * rewrite Q1 in Hl by (right; discriminate). lia.
+    + rewrite Q1 in Hl by (left; auto). lia.
+  - intros (Pz & E & Ef). rewrite (Q0 Pz E). split; [apply Sf; lia|lia].
 Qed.
 
 (* the clause of the property: a finished non-perpetual gauge has paid exactly its number of epochs *)
@@ -213,7 +218,7 @@ Definition FinExact (s : state) : Prop :=
    (and lock sums fit the SDK's 256-bit integers) *)
 Definition epoch_qualified (s0 : state) : Prop :=
   forall g, takes_part s0 g -> g_perp g = false ->
-    elig (s_locks s0) g <> [] /\ sum_locks (elig (s_locks s0) g) < 2 ^ max_int_bits.
+    (g_pool g <> 0 \/ elig (s_locks s0) g <> []) /\ sum_locks (elig (s_locks s0) g) < 2 ^ max_int_bits.
 
 Fixpoint all_qualified (cfg : config) (s : state) (ops : list op) : Prop :=
   match ops with
@@ -227,7 +232,7 @@ Lemma epoch_finexact : forall cfg thr s s', Inv s -> FinExact s -> epoch_qualifi
   after_epoch_end cfg thr s = Ok s' -> FinExact s'.
 Proof.
   intros cfg thr s s' I Fe Q H g' Hi' P' Hf'.
-  destruct (epoch_gauge_evolution _ _ _ _ I H g' Hi') as (g & Hs & Eid & _ & Ep & En & _ & _ & _ & Hev).
+  destruct (epoch_gauge_evolution _ _ _ _ I H g' Hi') as (g & Hs & Eid & _ & Ep & En & _ & _ & _ & _ & Hev).
   rewrite Ep in P'. rewrite Eid in Hf'.
   destruct (classic_tp s g Hs) as [Tp|Np].
   - destruct (Q g Tp P') as [Ne Hb].
@@ -283,6 +288,17 @@ Proof.
   - destruct (after_epoch_end cfg (thr_fun thr) (advance s dt)) as [s1|] eqn:E; [|discriminate]. inversion H; subst s1 v.
     eapply epoch_finexact; [apply advance_inv; eauto| |exact Q|exact E].
     intros g. cbn. apply Fe.
+  - destruct (negb (valid_raw raw) || (n <? 0) || (two64 <=? n) || (u <? 0)); [discriminate|].
+    destruct (create_nolock_gauge cfg s u perp pool (mk_coins raw) start n) as [s1|] eqn:C; [|discriminate]. inversion H; subst s1 v; clear H.
+    unfold create_nolock_gauge in C.
+    destruct ((n =? 0) && negb perp); [discriminate|]. destruct (negb (distributable cfg s (mk_coins raw))); [discriminate|].
+    destruct (pool <=? 0); [discriminate|]. destruct (negb (mem pool (cfg_clpools cfg))); [discriminate|].
+    destruct (bank_send (s_bank s) u MODULE (mk_coins raw)); [|discriminate].
+    destruct (add_ref (s_up s) start (s_last_gauge s + 1)); [|discriminate]. inversion C; subst s'; clear C.
+    intros g Hi P Hf. cbn [s_gauges s_fin] in *. apply set_gauge_in in Hi. destruct Hi as [->|Hi]; [|apply Fe; auto].
+    cbn [g_id] in Hf. exfalso. apply cnt_all_in in Hf.
+    assert (Or : in_range s (s_last_gauge s + 1) = false) by (unfold in_range; apply andb_false_iff; right; apply Z.leb_gt; lia).
+    destruct (out_of_range_zero _ _ I Or) as (_ & _ & Z3). lia.
 Qed.
 
 Lemma run_finexact : forall cfg ops s, cfg_ok cfg -> Inv s -> FinExact s -> all_qualified cfg s ops ->
@@ -328,7 +344,7 @@ Qed.
 
 Definition epoch_qualified_b (s0 : state) : bool :=
   forallb (fun g => negb (takes_part_b s0 g && negb (g_perp g)) ||
-                    (negb (is_empty (elig (s_locks s0) g)) && (sum_locks (elig (s_locks s0) g) <? 2 ^ max_int_bits)))
+                    ((negb (g_pool g =? 0) || negb (is_empty (elig (s_locks s0) g))) && (sum_locks (elig (s_locks s0) g) <? 2 ^ max_int_bits)))
           (s_gauges s0).
 
 Lemma epoch_qualified_b_spec : forall s0, epoch_qualified_b s0 = true -> epoch_qualified s0.
@@ -336,7 +352,9 @@ Proof.
   unfold epoch_qualified_b, epoch_qualified. intros s0 H g Tp P. rewrite forallb_forall in H.
   specialize (H g (proj1 Tp)). rewrite (takes_part_b_spec _ _ Tp), P in H. cbn [negb andb orb] in H.
   apply andb_true_iff in H. destruct H as [H1 H2]. apply Z.ltb_lt in H2. split; auto.
-  intros E. rewrite E in H1. discriminate.
+  apply orb_true_iff in H1. destruct H1 as [H1|H1].
+  - left. apply negb_true_iff, Z.eqb_neq in H1. auto.
+  - right. intros E. rewrite E in H1. discriminate.
 Qed.
 
 Fixpoint all_qualified_b (cfg : config) (s : state) (ops : list op) : bool :=
